@@ -99,25 +99,9 @@ class Scenario:
                 self.seed[s] = raw
             else:
                 self.seed[s] = b32dec(sid[3:])
-            kinds = []
-            for _ in range(rng.choice([0, 1, 1, 1, 2])):
-                c = {"signer": rng.choice(SIGNERS), "subject": s if rng.random() < 0.8 else rng.choice([o for o in self.sids if o != s]),
-                     "expires": rng.choice([10, 20]), "tamper": rng.choices(["none", "cert", "sig"], weights=[7, 1, 1])[0]}
-                if c not in kinds:
-                    kinds.append(c)
-            if rng.random() < 0.3 and len(self.sids) > 1:
-                # the combination that separates "some valid certificate names this server" from "this server's
-                # certificate is valid": an own certificate that expires early next to a later one issued to another server
-                sg = rng.choice(self.keys) if self.keys and rng.random() < 0.8 else rng.choice(SIGNERS)
-                kinds = [{"signer": sg, "subject": s, "expires": 10, "tamper": "none"},
-                         {"signer": sg, "subject": rng.choice([o for o in self.sids if o != s]), "expires": 20, "tamper": "none"}]
-                if rng.random() < 0.5:
-                    kinds.reverse()
+            kinds = self.cert_kinds(s, malformed=0.04)
             self.certs[s] = kinds
-            real = []
-            for c in kinds:
-                sc = self.world.cert(c, rng.randrange(2), target=s)
-                real.append(json.loads(jsonbytes.dumps(sc.marshal())))
+            real = self.real_certs(s, kinds)
             if real or rng.random() < 0.5:
                 ann["grid-manager-certificates"] = real
             self.ann[s] = ann
@@ -126,6 +110,49 @@ class Scenario:
         self.events = []
         self.clients = {}
         self.rrefs = {"A": {}, "B": {}}
+
+    def cert_kinds(self, s, malformed=0.0):
+        rng = self.rng
+        kinds = []
+        for _ in range(rng.choice([0, 1, 1, 1, 2])):
+            c = {"signer": rng.choice(SIGNERS), "subject": s if rng.random() < 0.8 else rng.choice([o for o in self.sids if o != s]),
+                 "expires": rng.choice([10, 20]), "tamper": rng.choices(["none", "cert", "sig"], weights=[7, 1, 1])[0]}
+            if c not in kinds:
+                kinds.append(c)
+        if rng.random() < 0.3 and len(self.sids) > 1:
+            # the combination that separates "some valid certificate names this server" from "this server's
+            # certificate is valid": an own certificate that expires early next to a later one issued to another server
+            sg = rng.choice(self.keys) if self.keys and rng.random() < 0.8 else rng.choice(SIGNERS)
+            kinds = [{"signer": sg, "subject": s, "expires": 10, "tamper": "none"},
+                     {"signer": sg, "subject": rng.choice([o for o in self.sids if o != s]), "expires": 20, "tamper": "none"}]
+            if rng.random() < 0.5:
+                kinds.reverse()
+        if rng.random() < malformed:
+            # an entry that is not a well-formed certificate at all (it names this server and would not have expired)
+            sg = rng.choice(self.keys) if self.keys and rng.random() < 0.5 else rng.choice(SIGNERS)
+            kinds.insert(rng.randrange(len(kinds) + 1), {"signer": sg, "subject": s, "expires": 20, "tamper": "malformed"})
+        return kinds
+
+    def real_certs(self, s, kinds):
+        rng = self.rng
+        real = []
+        for c in kinds:
+            if c["tamper"] == "malformed":
+                d = json.loads(jsonbytes.dumps(self.world.cert(dict(c, tamper="none"), 0, target=s).marshal()))
+                how = rng.randrange(4)
+                if how == 0:
+                    d["signature"] = d["signature"][:-1]
+                elif how == 1:
+                    d["signature"] = "!!" + d["signature"][2:]
+                elif how == 2:
+                    del d["signature"]
+                else:
+                    d = "certificate"
+                real.append(d)
+                continue
+            sc = self.world.cert(c, rng.randrange(2), target=s)
+            real.append(json.loads(jsonbytes.dumps(sc.marshal())))
+        return real
 
     def make_broker(self, basedir):
         gmkeys = [self.world.gms[k]._public_key for k in self.keys]
@@ -145,12 +172,50 @@ class Scenario:
         return StorageFarmBroker(True, lambda h=None: StubTub(), config, scc)
 
     # ---- operations on the real brokers ----
+    def announce(self, c, s):
+        """hand the client's current announcement of s to the broker (A: as the introducer client does; B: test_add_rref, which
+        connects at once); what the broker made of it is part of the event"""
+        b = self.clients[c]
+        sid = self.server_id[s]
+        ann, kinds = self.cur[c][s]
+        err = ""
+        try:
+            if c == "A":
+                b._got_announcement(sid, json.loads(json.dumps(ann)))
+            else:
+                b.test_add_rref(sid, StubRref(), json.loads(json.dumps(ann)))
+        except Exception as e:
+            err = "%s: %s" % (type(e).__name__, str(e)[:120])
+        conn = sid in b.servers and bool(b.servers[sid].is_connected())
+        self.events.append({"ev": "Announce", "client": c, "sid": s, "certs": kinds, "accepted": err == "", "known": sid in b.servers,
+                            "connected": conn, "err": err})
+
+    def reannounce(self, c, s):
+        """the server publishes again: other certificates (and sometimes nothing else), or the identical announcement"""
+        rng = self.rng
+        ann, kinds = self.cur[c][s]
+        ann = dict(ann)
+        r = rng.random()
+        if r < 0.75:
+            kinds = self.cert_kinds(s, malformed=0.15)
+            real = self.real_certs(s, kinds)
+            if real or rng.random() < 0.5:
+                ann["grid-manager-certificates"] = real
+            else:
+                ann.pop("grid-manager-certificates", None)
+        if 0.6 < r < 0.85:
+            ann["my-version"] = "tahoe-lafs/1.%d" % rng.randrange(20)
+        self.cur[c][s] = (ann, kinds)
+        self.announce(c, s)
+
     def set(self, c, s, connected):
         b = self.clients[c]
         sid = self.server_id[s]
         if c == "A":
             if sid not in b.servers:
-                b._got_announcement(sid, dict(self.ann[s]))
+                self.announce(c, s)
+                if sid not in b.servers:
+                    return               # the broker refused the announcement: the server stays unknown to this client
             srv = b.servers[sid]
             if connected and not srv.is_connected():
                 r = StubRref()
@@ -161,10 +226,21 @@ class Scenario:
         else:
             if connected:
                 if sid not in b.servers or not b.servers[sid].is_connected():
-                    b.test_add_rref(sid, StubRref(), dict(self.ann[s]))
+                    self.announce(c, s)
+                    return
             elif sid in b.servers and b.servers[sid].is_connected():
                 b.servers[sid]._lost()
         self.events.append({"ev": "Set", "client": c, "sid": s, "connected": bool(connected)})
+
+    def permits(self, c):
+        """upload_permitted() of every server object the client holds, at the current time"""
+        b = self.clients[c]
+        out = {}
+        for s in self.sids:
+            sid = self.server_id[s]
+            if sid in b.servers:
+                out[s] = bool(b.servers[sid].upload_permitted())
+        self.events.append({"ev": "Permits", "client": c, "now": self.now[0], "res": out})
 
     def rank(self, psi):
         order = sorted(self.sids, key=lambda s: hashlib.sha1(psi + self.seed[s]).digest())
@@ -181,6 +257,7 @@ class Scenario:
         gm.current_datetime_with_zone = lambda: self.world.t(self.now[0])
         try:
             self.clients = {"A": self.make_broker(basedir), "B": self.make_broker(basedir)}
+            self.cur = {c: {s_: (self.ann[s_], self.certs[s_]) for s_ in self.sids} for c in ("A", "B")}
             for c in ("A", "B"):
                 order = list(self.sids)
                 rng.shuffle(order)
@@ -192,7 +269,11 @@ class Scenario:
                 psi = bytes(rng.getrandbits(8) for _ in range(16))
                 self.now[0] = rng.choice([5, 15, 25, 3, 12, 19, 21])      # never the instants 10 / 20 (see C33)
                 fu = rng.random() < 0.6
-                if r < 0.25:
+                if r < 0.12:
+                    self.reannounce(rng.choice("AB"), rng.choice(self.sids))
+                elif r < 0.2:
+                    self.permits(rng.choice("AB"))
+                elif r < 0.3:
                     c = rng.choice("AB")
                     s = rng.choice(self.sids)
                     b = self.clients[c]
@@ -205,7 +286,11 @@ class Scenario:
                                         "rank": self.rank(psi), "res": self.ask(c, psi, fu)})
                 else:
                     if rng.random() < 0.6:
-                        # bring the two clients to the same connected set first
+                        # bring the two clients to the same announcements and the same connected set first
+                        for s in self.sids:
+                            if self.cur["A"][s] is not self.cur["B"][s] and self.cur["A"][s] != self.cur["B"][s]:
+                                self.cur["B"][s] = self.cur["A"][s]
+                                self.announce("B", s)
                         for s in self.sids:
                             sid = self.server_id[s]
                             a = sid in self.clients["A"].servers and self.clients["A"].servers[sid].is_connected()
